@@ -172,6 +172,62 @@ def make_cells(gi, tier):
 
         cells.append(Cell("%s/blocks" % nm, st.lists(elem, min_size=2, max_size=2), check_blocks, nontrivial, classify,
                           quick=100, thorough=2000))
+    # ---- element objects reused across several operations (in-place mutation / aliasing shows here)
+    def mk_reuse():
+        x, y, z = gi._X("X"), gi._X("Y"), gi._X("Z")
+        X, Y, Z = gi.G.elem(x), gi.G.elem(y), gi.G.elem(z)
+        outs = [(X * Y).param, (Y * X).param, ((X * Y) * Z).param, (X * (Y * Z)).param, (X.inverse() * X).param,
+                X.to_Matrix(), (X * Y).param, X.param, Y.param, Z.param]
+        return [x, y, z], [cy.ca.densify(o) for o in outs]
+
+    reuse = cy.Fn("%s_reuse" % nm.replace("*", "x").replace("(", "_").replace(")", ""), mk_reuse)
+
+    def check_reuse(case):
+        X, Y, Z = enc(case[0]), enc(case[1]), enc(case[2])
+        assume(_valid_inputs(gi, [X, Y, Z]) and _mrp_pairs_ok(gi, X, Y) and _mrp_pairs_ok(gi, Y, Z) and _mrp_pairs_ok(gi, Y, X))
+        XY, YX, XY_Z, X_YZ, XiX, MXo, XY2, Xp, Yp, Zp = reuse(X, Y, Z)
+        XYv, YZv = gi.prod(X, Y), gi.prod(Y, Z)
+        assume(_mrp_pairs_ok(gi, XYv, Z) and _mrp_pairs_ok(gi, X, YZv) and _valid_inputs(gi, [XYv, YZv]))
+        for nm_, a, b in (("X", Xp, X), ("Y", Yp, Y), ("Z", Zp, Z)):
+            if not np.array_equal(cy.vec(a), b):
+                raise Violation("%s: element %s changed after being used as an operand (in-place mutation)" % (nm, nm_),
+                                before=b.tolist(), after=cy.vec(a).tolist())
+        MX, MY, MZ = gi.toM(X), gi.toM(Y), gi.toM(Z)
+        band = any(L.band_result(gi, m) for m in (MX @ MY, MY @ MX, MY @ MZ, MX @ MY @ MZ))
+        tol = 3 * L.BAND_TOL if band else 1e-9
+        L.close(MXo, MX, "%s: M(X) on a reused object" % nm, atol=1e-12)
+        L.close(gi.toM(cy.vec(XY)), MX @ MY, "%s: M(X*Y) on reused objects vs M(X)M(Y)" % nm, atol=tol)
+        L.close(gi.toM(cy.vec(XY2)), MX @ MY, "%s: M(X*Y) evaluated a second time on the same objects" % nm, atol=tol)
+        L.close(gi.toM(cy.vec(YX)), MY @ MX, "%s: M(Y*X) on reused objects vs M(Y)M(X)" % nm, atol=tol)
+        L.close(gi.toM(cy.vec(XY_Z)), MX @ MY @ MZ, "%s: M((XY)Z) on reused objects" % nm, atol=tol)
+        L.close(gi.toM(cy.vec(X_YZ)), MX @ MY @ MZ, "%s: M(X(YZ)) on reused objects" % nm, atol=tol)
+        L.close(gi.toM(cy.vec(XiX)), np.eye(MX.shape[0]), "%s: M(X^-1 * X) on reused objects vs I" % nm,
+                atol=tol, scale=float(np.max(np.abs(MX))) * float(np.max(np.abs(np.linalg.inv(MX)))))
+
+    cells.append(Cell("%s/object_reuse" % nm, st.lists(elem, min_size=3, max_size=3), check_reuse, nontrivial, classify,
+                      quick=80, thorough=1500, build=lambda: reuse.build()))
+
+    # ---- the same API called on numeric (DM) parameters, in sequences with nearly identical inputs
+    @st.composite
+    def num_seq(draw):
+        return {"X": draw(elem), "Y": draw(elem), "pert": [draw(st.sampled_from([0.0, 1e-9, 1e-7, -1e-6, 1e-5])) for _ in range(draw(st.integers(1, 3)))],
+                "d": draw(gens.vector(gi.n, scales=(0,), allow_zero=False))}
+
+    def check_numeric(case):
+        X0, Y = enc(case["X"]), enc(case["Y"])
+        assume(_valid_inputs(gi, [X0, Y]))
+        for eps in [0.0] + list(case["pert"]):
+            X = X0 * (1 + eps * np.array(case["d"]))
+            if not _mrp_pairs_ok(gi, X, Y):
+                continue
+            for key, args in (("toM", (X,)), ("inv", (X,)), ("prod", (X, Y))):
+                want = gi.fn(key)(*args)
+                got = gi.numeric(key, *args)
+                L.close(np.asarray(got).reshape(np.asarray(want).shape), want,
+                        "%s: %s called on numeric parameters (after earlier numeric calls) vs the symbolic function" % (nm, key),
+                        atol=1e-12, rtol=1e-12, scale=float(np.max(np.abs(want))), eps=eps)
+
+    cells.append(Cell("%s/numeric_mode" % nm, num_seq(), check_numeric, lambda c: L.nontrivial_elem(c["X"]), quick=30, thorough=500))
     return cells
 
 
